@@ -38,7 +38,7 @@ var Meta = map[string]PropMeta{
 	"C01": {
 		Level:       "exploration",
 		Technique:   "deterministic simulation: real client and real daemon in one process over a seeded scheduled transport; seeded search over tree x prior destination x options x arrangement x transport personality; reference-model oracle on the final tree",
-		Rule:        "one evaluation = one generated scenario (source tree, prior destination state, option subset, source arguments, arrangement A1 pull-daemon/A2 push-daemon/A3 library pull+push/A4 CLI local copy, transport capacities/chunking/bias), run under 1-2 schedules; oracle: both ends return nil, every model-selected regular file equals the source bytes if the update rule says transfer, else is unchanged. One scheduled run in five starts from a killed state: an identical earlier sync is stopped at a drawn scheduler step (all goroutines of both ends parked), the destination is copied as a kill of both processes would leave it (temporary files, half-made directories) and that copy is the prior state of the judged sync (probes kill_states*). Non-trivial = at least one selected file was transferred over an existing, non-empty, different destination file (delta basis in play); distinct = distinct scenario JSON",
+		Rule:        "one evaluation = one generated scenario (source tree, prior destination state, option subset, source arguments, arrangement A1 pull-daemon/A2 push-daemon/A3 library pull+push/A4 CLI local copy, transport capacities/chunking/bias), run under 1-2 schedules; oracle: both ends return nil, every model-selected regular file equals the source bytes if the update rule says transfer, else is unchanged. One scheduled run in five starts from a killed state: an identical earlier sync is stopped at a drawn scheduler step (all goroutines of both ends parked), the destination is copied as a kill of both processes would leave it (temporary files, half-made directories) and that copy is the prior state of the judged sync (probes kill_states*). Non-trivial = at least one selected file was transferred over an existing, non-empty, different destination file (delta basis in play); distinct = distinct scenario JSON Names sometimes contain the names the harness gives to modules and roots (mod, old-mod, src, dst).",
 		Assumptions: []string{"reference model of selection/update rule (verif/sim/model) is correct", "A4 (CLI local copy) uses io.Pipe inside the code under test: its interleaving is chosen by the Go runtime, only hang detection is exact there", "file sizes up to 3 MiB quick / 12 MiB thorough"},
 		Real:        realCommon, Stub: stubCommon,
 		Quick:    q(3000, 40*time.Second),
@@ -57,7 +57,7 @@ var Meta = map[string]PropMeta{
 	"C20": {
 		Level:       "exploration",
 		Technique:   "deterministic simulation as execution vehicle: the real daemon entry point (maincmd.Main through rsynccmd, listener hook under build tag verif) serves its SSH listeners on a simulated network inside the worker; golang.org/x/crypto/ssh clients connect with generated keys and send exec/shell/subsystem/pty/env requests and channel opens; canary ring and channel output as oracles",
-		Rule:        "auth mode: authorized_ssh listener with an authorized_keys file in one of 4 layouts (plain, comments and blank lines, options prefix and comment suffix, empty) listing a random subset of 2-5 generated keys of types ed25519/ecdsa-256/384/521/rsa-2048; every key connects: handshake must succeed iff the key is listed, and an admitted client gets the module listing through 'rsync --server --daemon .'. anon mode: anon_ssh listener with a writable module; 5 (thorough 12) sessions: the daemon invocation (3 spellings), shell/subsystem/pty-req, foreign channel types, and exec command lines from a 34-entry grammar (command-mode server on outside paths with and without --sender/--delete, client-mode local and remote transfers, -e/--rsh with a canary script, RSYNC_RSH via env, daemon flags, --version/--help, other programs, empty line). Oracle: every non-daemon command line ends with a non-zero exit status or a refused request/channel; no canary content on the channel; nothing created, changed, deleted or executed outside the module; no outside content copied into the module; the daemon invocation serves the listing. Non-trivial = every run Command lines without a program name; behind every accepted --server command the check plays the matching client for real; unlisted keys wrapped in certificates naming a listed key as issuer (forged, and really signed by the listed key).",
+		Rule:        "auth mode: authorized_ssh listener with an authorized_keys file in one of 4 layouts (plain, comments and blank lines, options prefix and comment suffix, empty) listing a random subset of 2-5 generated keys of types ed25519/ecdsa-256/384/521/rsa-2048; every key connects: handshake must succeed iff the key is listed, and an admitted client gets the module listing through 'rsync --server --daemon .'. anon mode: anon_ssh listener with a writable module; 5 (thorough 12) sessions: the daemon invocation (3 spellings), shell/subsystem/pty-req, foreign channel types, and exec command lines from a 34-entry grammar (command-mode server on outside paths with and without --sender/--delete, client-mode local and remote transfers, -e/--rsh with a canary script, RSYNC_RSH via env, daemon flags, --version/--help, other programs, empty line). Oracle: every non-daemon command line ends with a non-zero exit status or a refused request/channel; no canary content on the channel; nothing created, changed, deleted or executed outside the module; no outside content copied into the module; the daemon invocation serves the listing. Non-trivial = every run Command lines without a program name; behind every accepted --server command the check plays the matching client for real; unlisted keys wrapped in certificates naming a listed key as issuer (forged, and really signed by the listed key). Command lines with --daemon after the paths or as the value of another option are judged by exposure, with the matching client played for real.",
 		Assumptions: []string{"input/configuration-quantified; SSH key exchange uses crypto/rand, so event logs (not verdicts) differ between runs", "built with the repository's nonamespacing tag and GOKRAZY_RSYNC_PRIVDROP=1 so that the daemon does not re-execute itself in a mount namespace; landlock relaxed through restrict.ExtraHook", "only the anonymous listener is held to 'daemon protocol only' (command mode is the documented use of the authorised one)"},
 		Real:        append([]string{"internal/anonssh", "internal/maincmd daemon branch", "internal/rsyncdconfig", "golang.org/x/crypto/ssh (server and client)"}, realCommon...), Stub: append([]string{"non-parking simulated connections (x/crypto/ssh holds a mutex across Write)"}, stubCommon...),
 		Quick:            q(300, 60*time.Second),
@@ -69,7 +69,7 @@ var Meta = map[string]PropMeta{
 	"C02": {
 		Level:       "exploration",
 		Technique:   "deterministic simulation: reference protocol-27 receiver (independent implementation, cross-checked against tridge rsync 3.2.7) drives the real sender with block-checksum sets of its own choosing over bases of its own choosing; reference sender drives the real receiver with scripted token streams; scheduled transport and short-reading simulated sender disk; bounded enumeration of the small-alphabet sub-space in the thorough tier",
-		Rule:        "sender mode: 1-6 files per session, each a (target, basis, block length, strong length) case: small alphabets {a,b}/{a,b,c} with lengths 0..12 and block lengths 1..8, or large files up to 3 MiB with block lengths 700..131072 (incl. multiples of 8 and tiny legal ones), bases = edited variants incl. weak-checksum-colliding blocks (+1,-2,+1 byte patch keeps the rolling sum), duplicated blocks, remainder block recurring mid-file; real daemon serves from a directory or from a short-reading fs.FS. Oracle: tokens applied to the basis == source bytes, trailer == MD4(seed||source), head echoed; with a truncated strong sum a mismatch is accepted only if weak and truncated strong sums of the referenced block and the target window are equal. receiver mode: real pulling client, destination holds bases, reference sender answers with random scripts (literal runs 1 B..256 KiB+1, block references in any order, repeated, remainder block mid-file); oracle: file written == bytes denoted. thorough additionally enumerates ALL targets x bases over {a,b} of length 1..6 x block lengths 1..4 (63504 cases). Non-trivial = a reply with both block references and literals (sender) / scripts with block references (receiver) Block lengths include values above the 128 KiB limit of later protocols (up to 2^29) and strong-checksum lengths 1..16.",
+		Rule:        "sender mode: 1-6 files per session, each a (target, basis, block length, strong length) case: small alphabets {a,b}/{a,b,c} with lengths 0..12 and block lengths 1..8, or large files up to 3 MiB with block lengths 700..131072 (incl. multiples of 8 and tiny legal ones), bases = edited variants incl. weak-checksum-colliding blocks (+1,-2,+1 byte patch keeps the rolling sum), duplicated blocks, remainder block recurring mid-file; real daemon serves from a directory or from a short-reading fs.FS. Oracle: tokens applied to the basis == source bytes, trailer == MD4(seed||source), head echoed; with a truncated strong sum a mismatch is accepted only if weak and truncated strong sums of the referenced block and the target window are equal. receiver mode: real pulling client, destination holds bases, reference sender answers with random scripts (literal runs 1 B..256 KiB+1, block references in any order, repeated, remainder block mid-file); oracle: file written == bytes denoted. thorough additionally enumerates ALL targets x bases over {a,b} of length 1..6 x block lengths 1..4 (63504 cases). Non-trivial = a reply with both block references and literals (sender) / scripts with block references (receiver) Block lengths include values above the 128 KiB limit of later protocols (up to 2^29) and strong-checksum lengths 1..16. Receiver mode: at fixed positions of the run sequence the basis is a sparse file of 2 GiB and more and the block references go to offsets at and beyond the 2 GiB mark.",
 		Assumptions: []string{"refproto is the trusted base (go test ./refproto validates it against /usr/bin/rsync --protocol=27 when present)", "file sizes <= 3 MiB"},
 		Real:        realCommon, Stub: append([]string{"peer: reference protocol-27 receiver/sender (verif/sim/refproto)", "sender disk for fs.FS modules: simfs with seeded short reads"}, stubCommon...),
 		Quick:     q(4000, 40*time.Second),
@@ -97,7 +97,7 @@ var Meta = map[string]PropMeta{
 	"C05": {
 		Level:       "exploration",
 		Technique:   "deterministic simulation with a hostile reference sender: the real receiving client (pull from a hostile daemon) and the real writable daemon module (upload from a hostile client, incl. sub-directory arguments) are fed file lists built from an escape-vector grammar; a ring of canary objects around the destination is compared before/during/after; block checksums requested by the real generator are matched against the canaries' signatures to detect reads",
-		Rule:        "2-9 hostile entries per list drawn from 34 name vectors (.. components, absolute names, names through pre-existing symlinks pointing out of the root, names through symlinks sent earlier in the same list (evil -> ../sibling_dir, evil2 -> absolute dir, evil_up -> ..), a/../.. forms, name-prefix siblings) x entry types regular file (basis open, temp file, rename), directory (mkdir, chmod, chtimes), symlink, fifo, socket, char device (mknod), with a random subset of -l -p -t -o -g -D --delete -I -c so that chmod/chtimes/chown/delete are attempted; module side also draws the upload sub-directory from {'', sub/, link_out/, link_up/, ../, ../sibling_dir/, link_abs/, a/../../}. Oracle: every object outside the root (sibling file, sibling directory, name-prefix sibling, absolute-path canary, /etc probe) has identical existence, content, mode, mtime, owner at every 16th scheduler step and at the end; no request carries the block signature of a canary. Any error or skip is acceptable. Non-trivial = every run",
+		Rule:        "2-9 hostile entries per list drawn from 34 name vectors (.. components, absolute names, names through pre-existing symlinks pointing out of the root, names through symlinks sent earlier in the same list (evil -> ../sibling_dir, evil2 -> absolute dir, evil_up -> ..), a/../.. forms, name-prefix siblings) x entry types regular file (basis open, temp file, rename), directory (mkdir, chmod, chtimes), symlink, fifo, socket, char device (mknod), with a random subset of -l -p -t -o -g -D --delete -I -c so that chmod/chtimes/chown/delete are attempted; module side also draws the upload sub-directory from {'', sub/, link_out/, link_up/, ../, ../sibling_dir/, link_abs/, a/../../}. Oracle: every object outside the root (sibling file, sibling directory, name-prefix sibling, absolute-path canary, /etc probe) has identical existence, content, mode, mtime, owner at every 16th scheduler step and at the end; no request carries the block signature of a canary. Any error or skip is acceptable. Non-trivial = every run Hostile names may end in a slash; the same name may occur several times with different types; the hostile sender may withhold the data of one entry.",
 		Assumptions: []string{"runs as root, so ownership and device creation are really attempted", "a crash of the receiver is recorded as a probe here and judged by C08"},
 		Real:        realCommon, Stub: append([]string{"hostile peer: reference sender"}, stubCommon...),
 		Quick:     q(6000, 35*time.Second),
@@ -109,7 +109,7 @@ var Meta = map[string]PropMeta{
 		MaxJobsPerWorker: 200,
 		Level:            "exploration",
 		Technique:        "deterministic simulation with a hostile reference receiver: the real daemon (directory- and fs.FS-backed modules, several modules whose names are prefixes of each other) receives request paths from a traversal grammar; the raw server byte stream is scanned for canary secrets and the decoded file list is checked against the module's real contents",
-		Rule:             "module line from {mod, modx, mo, modfs} and one of 45 path forms (module/.., module/../x, module//../, absolute paths, paths through inside symlinks that point to an outside directory/file/absolute directory/.., empty and '.' components, other-module prefixes, NUL and blank components) with a random subset of -r -l -c -t -p -D -o -g; the reference receiver requests every listed regular file. Oracle: the server's raw bytes never contain the content (first 40/last 64 bytes), the MD4 or the name of an object outside the module (names may occur only as link targets of inside symlinks), nor another module's content; every decoded list entry names an existing object inside the module reached without a symlink or '..'. Non-trivial = every run The hostile receiver also requests the 'content' of one non-regular entry (symlink, directory, device) per session; the module contains an absolute symlink that only looks internal.",
+		Rule:             "module line from {mod, modx, mo, modfs} and one of 45 path forms (module/.., module/../x, module//../, absolute paths, paths through inside symlinks that point to an outside directory/file/absolute directory/.., empty and '.' components, other-module prefixes, NUL and blank components) with a random subset of -r -l -c -t -p -D -o -g; the reference receiver requests every listed regular file. Oracle: the server's raw bytes never contain the content (first 40/last 64 bytes), the MD4 or the name of an object outside the module (names may occur only as link targets of inside symlinks), nor another module's content; every decoded list entry names an existing object inside the module reached without a symlink or '..'. Non-trivial = every run The hostile receiver also requests the 'content' of one non-regular entry (symlink, directory, device) per session; the module contains an absolute symlink that only looks internal. One run in forty reaches the daemon through its anonymous SSH listener with sender command lines on outside paths (C20's machinery).",
 		Assumptions:      []string{"canary contents are 2 KB random strings so accidental occurrence is impossible", "link target strings of symlinks inside the module are module data and may name outside paths"},
 		Real:             realCommon, Stub: append([]string{"hostile peer: reference receiver"}, stubCommon...),
 		Quick:    q(8000, 35*time.Second),
@@ -118,7 +118,7 @@ var Meta = map[string]PropMeta{
 	"C07": {
 		Level:       "exploration",
 		Technique:   "deterministic simulation: real daemon with modules of mixed writability behind Serve(simulated listener) or HandleDaemonConn, attacked by the real pushing client and by a reference protocol-27 sender with hand-written argument lines; module snapshot as step invariant and final oracle",
-		Rule:        "daemon with modules rw (writable), ro (directory, read-only), rofs (fs.FS-backed) and r (writable, name is a prefix of the read-only ones); upload target ro|rofs plus sub-path from {'', '/', '/sub', '/sub/', '/a/b/c/', '/../rw/', '/.', existing entry}; flags: random subset of -t -p -l -D -o -g -c -I -n --delete -a (real client) or raw argument lines without --sender in several spellings (hostile client sending a list and data). Oracle: snapshot of both read-only module trees (content, mode, mtime ns, owner, link target) identical at every 4th scheduler step and at the end; the client ends with an error (@ERROR line, error frame or failed session). Non-trivial = every run (a refusal was observed) A sixth of the runs are download/listing requests (also for paths that do not exist) under the same unchanged-module invariant; one server in twelve is created without DontRestrict() with landlock made a no-op.",
+		Rule:        "daemon with modules rw (writable), ro (directory, read-only), rofs (fs.FS-backed) and r (writable, name is a prefix of the read-only ones); upload target ro|rofs plus sub-path from {'', '/', '/sub', '/sub/', '/a/b/c/', '/../rw/', '/.', existing entry}; flags: random subset of -t -p -l -D -o -g -c -I -n --delete -a (real client) or raw argument lines without --sender in several spellings (hostile client sending a list and data). Oracle: snapshot of both read-only module trees (content, mode, mtime ns, owner, link target) identical at every 4th scheduler step and at the end; the client ends with an error (@ERROR line, error frame or failed session). Non-trivial = every run (a refusal was observed) A sixth of the runs are download/listing requests (also for paths that do not exist) under the same unchanged-module invariant; one server in twelve is created without DontRestrict() with landlock made a no-op. One run in eight is the second step of a two-step attack (the writable module contains a symlink to the read-only module's directory, the upload goes to rw/door/...); download requests may carry --remove-source-files.",
 		Assumptions: []string{"refproto sender is the hostile peer"},
 		Real:        realCommon, Stub: append([]string{"hostile peer: reference sender"}, stubCommon...),
 		Quick:    q(5000, 35*time.Second),
@@ -127,7 +127,7 @@ var Meta = map[string]PropMeta{
 	"C08": {
 		Level:       "fault_enumeration",
 		Technique:   "deterministic simulation with a byzantine reference peer: structure-aware single-field mutation of otherwise valid sessions (every named protocol field x value class), argument lines from the option parser's vocabulary, connection cuts at byte offsets and random noise, against the real daemon behind its real accept loop (no recover: a panic or os.Exit kills the worker process, which the driver observes) and against the real client; each hostile session is followed by a canonical valid session on the same daemon",
-		Rule:        "daemon target: one Server.Serve(simulated listener) with modules ro/rw/fsm per run, 6 (thorough 14) hostile sessions, each followed by a canonical pull whose data must be correct. Session kinds: pull-mut / push-mut (one field occurrence of greeting, module line, argument line, filter list, file index, checksum-header fields, sums, file-list flags/lengths/names/ids/links, id lists, tokens, literals, trailers, phase markers and (client target) multiplex frame headers mutated by class neg, -1, 0, +1, -1, 2^20-1, truncation after the field, noise, int32 max/min; count-like fields never above 2^20 unless negative), args (57 argument-line vectors incl. --version, --help, --info=help, --debug=help, --daemon -h, -hh, unknown and unimplemented options, wildcard filters, 70 KB option strings, odd module lines), cut-pull / cut-push (connection lost after N client bytes), noise (random bytes at 5 handshake stages). client target (every third run): real pulling/pushing client against a hostile server with mutated version/seed/list/reply/stat fields or noise, or a valid stream packed into multiplex frames of 32 KiB .. 16 MiB-1 (larger than the client's documented limit: must be refused with an error, not a crash). Oracle: worker process alive (no panic, os.Exit, fatal error), no handler or client left blocked after the hostile peer closed, canonical request served with correct bytes, client returns instead of panicking. Non-trivial = at least one canonical session verified / every client run The hostile receiver signs nine basis layouts (exact multiples of the block length, single blocks, short strong sums); a quarter of the hostile peers linger, stalled, instead of closing, while the canonical request is served.",
+		Rule:        "daemon target: one Server.Serve(simulated listener) with modules ro/rw/fsm per run, 6 (thorough 14) hostile sessions, each followed by a canonical pull whose data must be correct. Session kinds: pull-mut / push-mut (one field occurrence of greeting, module line, argument line, filter list, file index, checksum-header fields, sums, file-list flags/lengths/names/ids/links, id lists, tokens, literals, trailers, phase markers and (client target) multiplex frame headers mutated by class neg, -1, 0, +1, -1, 2^20-1, truncation after the field, noise, int32 max/min; count-like fields never above 2^20 unless negative), args (57 argument-line vectors incl. --version, --help, --info=help, --debug=help, --daemon -h, -hh, unknown and unimplemented options, wildcard filters, 70 KB option strings, odd module lines), cut-pull / cut-push (connection lost after N client bytes), noise (random bytes at 5 handshake stages). client target (every third run): real pulling/pushing client against a hostile server with mutated version/seed/list/reply/stat fields or noise, or a valid stream packed into multiplex frames of 32 KiB .. 16 MiB-1 (larger than the client's documented limit: must be refused with an error, not a crash). Oracle: worker process alive (no panic, os.Exit, fatal error), no handler or client left blocked after the hostile peer closed, canonical request served with correct bytes, client returns instead of panicking. Non-trivial = at least one canonical session verified / every client run The hostile receiver signs nine basis layouts (exact multiples of the block length, single blocks, short strong sums); a quarter of the hostile peers linger, stalled, instead of closing, while the canonical request is served. Index mutations include 'exactly one past the list'; the hostile client sends filter lists with wildcard and malformed rules.",
 		Assumptions: []string{"stalled peers and declared multi-gigabyte sizes are outside the guarantee (never generated)", "a crash is identified by panic message and top /repo frame, which is also the known-finding key"},
 		Real:        realCommon, Stub: append([]string{"hostile peer: reference peer with single-field mutation"}, stubCommon...),
 		Quick:    q(1500, 60*time.Second),
@@ -136,7 +136,7 @@ var Meta = map[string]PropMeta{
 	"C09": {
 		Level:       "exploration",
 		Technique:   "deterministic simulation: real client and daemon over the scheduled transport in pull, push and local arrangements; seeded generation of source/destination tree pairs with extraneous entries in every sort position; reference-model oracle on the final entry set; sender-disk fault (directory listing error) raises the I/O-error flag",
-		Rule:        "recursive sync of a directory's contents with --delete (control: without), destination holds 0..6 extraneous files/directories/symlinks/fifos per run at names sorting before, between and after the listed ones, nested, optionally an --exclude rule naming a destination entry. Oracle: listed entries never removed; without --delete or with the sender's I/O-error flag raised (simulated ReadDir failure) nothing removed; with --delete every extraneous entry not protected by an exclude rule is gone and every protected one is kept. Non-trivial = --delete with >= 2 extraneous entries One scheduled run in six starts from a killed state (destination copied at a drawn scheduler step of an earlier non-dry sync with the same arguments: temporary files and half-made directories are part of the prior state; probes kill_states*). Half of the runs without --delete put a non-empty directory in the way of a source file: the transfer may fail, but no destination path may disappear.",
+		Rule:        "recursive sync of a directory's contents with --delete (control: without), destination holds 0..6 extraneous files/directories/symlinks/fifos per run at names sorting before, between and after the listed ones, nested, optionally an --exclude rule naming a destination entry. Oracle: listed entries never removed; without --delete or with the sender's I/O-error flag raised (simulated ReadDir failure) nothing removed; with --delete every extraneous entry not protected by an exclude rule is gone and every protected one is kept. Non-trivial = --delete with >= 2 extraneous entries One scheduled run in six starts from a killed state (destination copied at a drawn scheduler step of an earlier non-dry sync with the same arguments: temporary files and half-made directories are part of the prior state; probes kill_states*). Half of the runs without --delete put a non-empty directory in the way of a source file: the transfer may fail, but no destination path may disappear. Exclude rules may contain a slash (unique tails only); extraneous names may be prefixes or extensions of listed names.",
 		Assumptions: []string{"model of exclude-rule protection: an entry is protected iff it or a parent matches an exclude rule (rsync semantics without --delete-excluded)"},
 		Real:        realCommon, Stub: append([]string{"sender disk (I/O error runs): simfs"}, stubCommon...),
 		Quick:    q(6000, 35*time.Second),
@@ -164,7 +164,7 @@ var Meta = map[string]PropMeta{
 	"C12": {
 		Level:       "exploration",
 		Technique:   "deterministic simulation: a reference protocol-27 sender serves the real receiving client a file list and destination files constructed to hit every cell of the update decision table; the oracle is the set of file indices the real generator requests, read off the wire by the reference sender. Repeat-sync idempotence with real sender and receiver is decided by decoding both recorded wire directions",
-		Rule:        "table mode: per run one option combination of {-r} x {-t} x {-c} x {-I} (8 combinations, by run index) and the complete table {missing, same size + same content, other size, same size + other content} x {mtime equal, +1 s, -1 s, sub-second difference only, previous second but less than 1 s away, next second with fraction, far future, far past} plus directory/symlink in the way, names and wire order random; oracle: requested set == model (missing | not regular | size differs | -c: content differs | -I | mtime differs at 1 s granularity). repeat mode (every 4th run): real A1 sync of a random tree twice with -t/-a/-tc: second run must request nothing and move no literal byte; then the size, mtime or content of one source file is changed and exactly the rule-mandated request must follow. Non-trivial = >= 10 decided entries / first run requested files Every fifth run is the decision table between two real ends in a drawn arrangement (server or local copy receiving), judged by content; one table entry in ten is an empty file.",
+		Rule:        "table mode: per run one option combination of {-r} x {-t} x {-c} x {-I} (8 combinations, by run index) and the complete table {missing, same size + same content, other size, same size + other content} x {mtime equal, +1 s, -1 s, sub-second difference only, previous second but less than 1 s away, next second with fraction, far future, far past} plus directory/symlink in the way, names and wire order random; oracle: requested set == model (missing | not regular | size differs | -c: content differs | -I | mtime differs at 1 s granularity). repeat mode (every 4th run): real A1 sync of a random tree twice with -t/-a/-tc: second run must request nothing and move no literal byte; then the size, mtime or content of one source file is changed and exactly the rule-mandated request must follow. Non-trivial = >= 10 decided entries / first run requested files Every fifth run is the decision table between two real ends in a drawn arrangement (server or local copy receiving), judged by content; one table entry in ten is an empty file. The repeat mode runs in every scheduled arrangement.",
 		Assumptions: []string{"refproto sender is the trusted base", "mtimes within the signed 32-bit range"},
 		Real:        realCommon, Stub: append([]string{"table mode: sending peer is the reference sender"}, stubCommon...),
 		Quick:    q(2500, 35*time.Second),
@@ -173,7 +173,7 @@ var Meta = map[string]PropMeta{
 	"C13": {
 		Level:       "exploration",
 		Technique:   "deterministic simulation: real client and daemon in pull, push and local arrangements; seeded generation of trees and 0-4 plain-name rules given via --exclude/--include/-f; reference model of first-match-wins filter semantics as oracle on the destination entry set",
-		Rule:        "tree of up to 14 entries (depth <= 3), rules name files and directories in every position plus non-matching names; destination empty. Oracle: destination entry set == model selection (first matching rule decides; excluded directory takes its subtree; later siblings unaffected; include rules keep). 1 in 12 rules is a wildcard rule: then the session must fail with an error or produce rsync's glob selection, never crash, hang or select something else. Non-trivial = rules filtered out at least one entry (or a wildcard rule was rejected)",
+		Rule:        "tree of up to 14 entries (depth <= 3), rules name files and directories in every position plus non-matching names; destination empty. Oracle: destination entry set == model selection (first matching rule decides; excluded directory takes its subtree; later siblings unaffected; include rules keep). 1 in 12 rules is a wildcard rule: then the session must fail with an error or produce rsync's glob selection, never crash, hang or select something else. Non-trivial = rules filtered out at least one entry (or a wildcard rule was rejected) A third of the runs transfer the contents of a sub-directory of the module/source; rules may contain a slash (unique tails) or end in a slash (names only directories bear).",
 		Assumptions: []string{"model written from the property statement; anchored ('/name'), directory-only ('name/'), path ('dir/name') and '!' rules are outside the generated domain"},
 		Real:        realCommon, Stub: stubCommon,
 		Quick:    q(8000, 35*time.Second),
@@ -182,7 +182,7 @@ var Meta = map[string]PropMeta{
 	"C14": {
 		Level:       "exploration",
 		Technique:   "deterministic simulation: the same (source, destination, option subset) is run through all five arrangements under the scheduled transport; deadlock detector and error returns expose desynchronisation; destinations are compared pairwise and against the reference model's entry set",
-		Rule:        "random subsets of {-r -l -p -t -g -o -D --devices --specials --no-D --no-l --no-p --no-t --no-g --no-o -c -I -n --delete -a} (+ --exclude) on a tree that always contains a symlink, fifo, socket, char device, nested and plain files; prior destination with up-to-date, stale and extraneous entries. Oracle: every arrangement succeeds (no protocol error, deadlock, crash); destination entry set == model (created types per option, --delete, -n, exclude); destinations of A2..A4 equal A1's on content, link target, rdev, perms (+ file mtime with -t, owner/group with -o/-g). One run in four adds 1-2 options the client's parser accepts but the model does not describe (-v.. --progress -H -u -d --no-r --info= --debug= --motd ...); those runs are judged by arrangement independence alone: all five arrangements end the same way (all succeed with equal destinations, or all refuse) and none hangs or crashes. Non-trivial = >= 2 arrangements compared",
+		Rule:        "random subsets of {-r -l -p -t -g -o -D --devices --specials --no-D --no-l --no-p --no-t --no-g --no-o -c -I -n --delete -a} (+ --exclude) on a tree that always contains a symlink, fifo, socket, char device, nested and plain files; prior destination with up-to-date, stale and extraneous entries. Oracle: every arrangement succeeds (no protocol error, deadlock, crash); destination entry set == model (created types per option, --delete, -n, exclude); destinations of A2..A4 equal A1's on content, link target, rdev, perms (+ file mtime with -t, owner/group with -o/-g). One run in four adds 1-2 options the client's parser accepts but the model does not describe (-v.. --progress -H -u -d --no-r --info= --debug= --motd ...); those runs are judged by arrangement independence alone: all five arrangements end the same way (all succeed with equal destinations, or all refuse) and none hangs or crashes. Non-trivial = >= 2 arrangements compared The tree always contains a name that ends in a blank next to the same name without it, with rules for both.",
 		Assumptions: []string{"runs as root so devices can be created", "sampled option subsets (2^20 x arrangements is not enumerated)"},
 		Real:        realCommon, Stub: stubCommon,
 		Quick:    q(2000, 45*time.Second),
@@ -191,7 +191,7 @@ var Meta = map[string]PropMeta{
 	"C15": {
 		Level:       "exploration",
 		Technique:   "deterministic simulation with an independent protocol-27 implementation (cross-checked against tridge rsync 3.2.7): strict decoding of what the real sender emits in daemon, command and client-sender roles, and encoding of file lists with every legal compression choice for the real receiver, whose listing must reproduce the entries",
-		Rule:        "decode modes: random tree (names with arbitrary bytes, all entry types, foreign uids/gids, up to 150 entries) under a random subset of {-o -g -D -l -c -t -p}; the reference receiver decodes handshake, list, id lists and I/O-error word strictly, compares every field with lstat of the source, then requests every regular file by its own sorted index and must receive that file's bytes. encode mode: 1-30 (sometimes 200-1000; thorough 2000-10000) entries with names 1..4094 bytes, shared prefixes, sizes 0, 2^31-1, 2^31, 2^40, 2^62, every type and permission value, per-opportunity random choice of SAME_NAME/SAME_TIME/SAME_MODE/SAME_UID/SAME_GID/SAME_RDEV, 1- and 4-byte name lengths, forced 64-bit lengths, daemon or remote-shell handshake; the real receiver runs in list-only mode and its listing must equal the encoded entries in sorted order. Non-trivial = more than 2 entries",
+		Rule:        "decode modes: random tree (names with arbitrary bytes, all entry types, foreign uids/gids, up to 150 entries) under a random subset of {-o -g -D -l -c -t -p}; the reference receiver decodes handshake, list, id lists and I/O-error word strictly, compares every field with lstat of the source, then requests every regular file by its own sorted index and must receive that file's bytes. encode mode: 1-30 (sometimes 200-1000; thorough 2000-10000) entries with names 1..4094 bytes, shared prefixes, sizes 0, 2^31-1, 2^31, 2^40, 2^62, every type and permission value, per-opportunity random choice of SAME_NAME/SAME_TIME/SAME_MODE/SAME_UID/SAME_GID/SAME_RDEV, 1- and 4-byte name lengths, forced 64-bit lengths, daemon or remote-shell handshake; the real receiver runs in list-only mode and its listing must equal the encoded entries in sorted order. Non-trivial = more than 2 entries Sparse files of 2-4 GiB are requested head-only: the checksum header of the sender's answer must describe the listed size.",
 		Assumptions: []string{"refproto is the trusted base", "encode mode observes the receiver through its list-only output (mode string, size, mtime, name); uid/gid/rdev/link decoding is observed indirectly: a mis-decoded optional field desynchronises the following entries"},
 		Real:        realCommon, Stub: append([]string{"peer: reference receiver / sender"}, stubCommon...),
 		Quick:    q(4000, 40*time.Second),
@@ -200,7 +200,7 @@ var Meta = map[string]PropMeta{
 	"C16": {
 		Level:       "exploration",
 		Technique:   "deterministic simulation + wire-history monitor: literal bytes and block references counted in the real sender's token stream (decoded by the reference protocol-27 parser), with the real generator's signatures and with reference signatures at other block sizes; chunked scheduled transport and short-reading simulated disk",
-		Rule:        "1-3 high-entropy files (2 KB..3 MiB quick, ..24 MiB thorough), the sender's version = receiver's copy + 0..4 edits (insert/delete/replace of 1..20000 bytes at unaligned offsets, prepend, append, block swap). Oracle: identical file => 0 literal bytes; otherwise literal bytes <= sum(new bytes of edit + 3B per continuity break) + B with B the block length seen in the echoed checksum header; reconstruction exact. Non-trivial = edited file longer than 4 blocks; distinct = distinct scenario A fifth of the files are 1..2100 bytes (below, at and just above one block).",
+		Rule:        "1-3 high-entropy files (2 KB..3 MiB quick, ..24 MiB thorough), the sender's version = receiver's copy + 0..4 edits (insert/delete/replace of 1..20000 bytes at unaligned offsets, prepend, append, block swap). Oracle: identical file => 0 literal bytes; otherwise literal bytes <= sum(new bytes of edit + 3B per continuity break) + B with B the block length seen in the echoed checksum header; reconstruction exact. Non-trivial = edited file longer than 4 blocks; distinct = distinct scenario A fifth of the files are 1..2100 bytes (below, at and just above one block). One edit in ten is an insertion of 270-670 KB (longer than the sender's literal flush threshold).",
 		Assumptions: []string{"bound constant 3 is deliberately loose (an edit spoils the blocks it overlaps plus neighbours)", "refproto parser is the trusted base"},
 		Real:        realCommon, Stub: append([]string{"mode ref: receiving peer is the reference receiver"}, stubCommon...),
 		Quick:    q(1500, 45*time.Second),
@@ -209,7 +209,7 @@ var Meta = map[string]PropMeta{
 	"C17": {
 		Level:       "exploration",
 		Technique:   "deterministic simulation with a re-framing middlebox on the server-to-client direction (a fault-injecting transport stage): the real server's multiplexed output is decoded and re-cut into other legal frames with info frames, empty frames and an optional error frame, causally (only bytes already emitted are re-cut); differential oracle against the un-reframed run of the same scenario",
-		Rule:        "sessions A1/A3 pull and A2/A3 push (server output = data or requests) on random trees with delta bases; re-framing: maximum data-frame size from {1,2,3,5,7,64,1000,4096,32768,65536,262144}, cut style uniform / always-max / always-1 / ending inside 4-byte words, info-frame runs of up to 1/3/120/500 before data frames with probability 0/5/30/100 %, empty data frames, in a fifth of the runs an error frame with a known message after a drawn number of data bytes. Oracle: same destination tree as the un-reframed run and success; with an error frame the client fails and its error carries the server's message. Every frame of the real server in the baseline run is checked: known tag, length <= 256 KiB, concatenated payloads parse as a valid protocol-27 sender stream. Non-trivial = more than 10 re-cut data frames or an error frame surfaced",
+		Rule:        "sessions A1/A3 pull and A2/A3 push (server output = data or requests) on random trees with delta bases; re-framing: maximum data-frame size from {1,2,3,5,7,64,1000,4096,32768,65536,262144}, cut style uniform / always-max / always-1 / ending inside 4-byte words, info-frame runs of up to 1/3/120/500 before data frames with probability 0/5/30/100 %, empty data frames, in a fifth of the runs an error frame with a known message after a drawn number of data bytes. Oracle: same destination tree as the un-reframed run and success; with an error frame the client fails and its error carries the server's message. Every frame of the real server in the baseline run is checked: known tag, length <= 256 KiB, concatenated payloads parse as a valid protocol-27 sender stream. Non-trivial = more than 10 re-cut data frames or an error frame surfaced Server error messages may contain percent signs and format verbs.",
 		Assumptions: []string{"frame sizes above 256 KiB are not generated: the client documents that limit and no known rsync sends them"},
 		Real:        realCommon, Stub: append([]string{"middlebox (harness) between server and client"}, stubCommon...),
 		Quick:    q(1500, 45*time.Second),
@@ -220,7 +220,7 @@ var Meta = map[string]PropMeta{
 		MaxJobsPerWorker: 10,
 		Level:            "exploration",
 		Technique:        "deterministic simulation: seeded scheduler over the capacity/chunking/bias matrix with exact deadlock detection (no enabled transport action while operations are pending), stall faults, 2-32 concurrent sessions against one Server interleaved by one schedule tape; plus free-running sessions under the Go race detector at GOMAXPROCS 1/4/16",
-		Rule:             "term mode: one session A1/A2/A3/A4 with capacities from {0,1,7,64,64Ki,unbounded}^2 (daemon arrangements >= 12 bytes: both ends write their greeting first), chunking style, scheduling bias, optional stall fault, tree mixing tiny files / multi-MiB literals / multi-MiB bases; violation = deadlock or step-budget exhaustion, or a session that ends with an error under the drawn transport although it succeeds on the canonical one (schedule independence); in a quarter of the runs one literal data byte is damaged in flight (located by decoding a fault-free run) and the session must still complete with an error (error-path termination). multi mode: 2-32 concurrent pulls/uploads (distinct and identical targets) via Server.Serve(simulated listener); every session must succeed and its result must equal the same session run alone; a quarter of the workers run the free-running variant in a -race build, and a third of the multi runs on ordinary workers are free-running too (40-200 directories, 4-11 identical uploads to one fresh target) so that handlers really overlap between system calls. Non-trivial = more than 50 scheduler steps (term) or >= 2 sessions on a non-empty tree (multi) A third of the multi-session runs contain stalled peers (1-3, sometimes 17-24) that stop reading in mid-transfer, scheduled or free-running (60 s wall-clock deadline): every other session must finish. One run in fifteen starts the real daemon with its anonymous SSH listener and mixes silent peers with daemon sessions. A deadlocked session is re-run on the canonical transport: if it ends with an error there, the hang is an error-path hang (recorded finding for A2/A3s), else a deadlock of a valid session.",
+		Rule:             "term mode: one session A1/A2/A3/A4 with capacities from {0,1,7,64,64Ki,unbounded}^2 (daemon arrangements >= 12 bytes: both ends write their greeting first), chunking style, scheduling bias, optional stall fault, tree mixing tiny files / multi-MiB literals / multi-MiB bases; violation = deadlock or step-budget exhaustion, or a session that ends with an error under the drawn transport although it succeeds on the canonical one (schedule independence); in a quarter of the runs one literal data byte is damaged in flight (located by decoding a fault-free run) and the session must still complete with an error (error-path termination). multi mode: 2-32 concurrent pulls/uploads (distinct and identical targets) via Server.Serve(simulated listener); every session must succeed and its result must equal the same session run alone; a quarter of the workers run the free-running variant in a -race build, and a third of the multi runs on ordinary workers are free-running too (40-200 directories, 4-11 identical uploads to one fresh target) so that handlers really overlap between system calls. Non-trivial = more than 50 scheduler steps (term) or >= 2 sessions on a non-empty tree (multi) A third of the multi-session runs contain stalled peers (1-3, sometimes 17-24) that stop reading in mid-transfer, scheduled or free-running (60 s wall-clock deadline): every other session must finish. One run in fifteen starts the real daemon with its anonymous SSH listener and mixes silent peers with daemon sessions. A deadlocked session is re-run on the canonical transport: if it ends with an error there, the hang is an error-path hang (recorded finding for A2/A3s), else a deadlock of a valid session. The termination mode draws output options (-v, --progress, --info, --debug); a quarter of the multi-session runs are one to three free-running sessions on pipes of 12..4096 bytes with those options (no result within 45 s, twice = deadlock); a fifth of the scheduled multi-session runs serve the read-only module from an fs.FS that has a Close method.",
 		Assumptions:      []string{"race detection is happens-before analysis on free-running in-memory transports (not schedule search): the deterministic scheduler would add happens-before edges", "A4 interleaving is chosen by the Go runtime; hang detection there is exact via synctest quiescence", "capacities below 12 bytes are not generated for daemon arrangements (greeting deadlock is protocol-inherent)"},
 		Real:             realCommon, Stub: stubCommon,
 		Quick:        q(1500, 60*time.Second),
